@@ -212,7 +212,7 @@ namespace c13
     _exit(0);
   }
 
-  struct Bounds { int pcg_dev = 2; uint64_t max_exec = 20000; bool do_pcg = true; bool do_to1 = true; };
+  struct Bounds { int pcg_dev = 2; uint64_t max_exec = 20000; bool do_pcg = true; bool do_to1 = true; bool thread_check = false; uint64_t thread_exec = 2000; };
 
   template<typename Mesh_, int space_id_, int BS_>
   void run_case_t(verif::Ctx& c, const Cfg& cfg, const Bounds& bd)
@@ -302,6 +302,32 @@ namespace c13
       c.outcome(std::string(op_name(op)) + (exact_op ? " exact" : " rounded") + " digests=" + (digests.size() == 1 ? "1" : digests.size() <= 4 ? "2-4" : ">4"));
       c.maxi(std::string("distinct_digests ") + op_name(op), digests.size());
       if(c.cut()) stop_case = true;
+    }
+    // validation of the reduction "rank interleavings need not be enumerated": on selected cases the rank threads are
+    // additionally scheduled by the full vsched explorer (one preemption, all switches at blocking points) for sync_0 and
+    // matrix.apply; oracle and digest must not change
+    if(bd.thread_check && !stop_case && P >= 2)
+    {
+      for(int op : {int(op_sync0), int(op_apply)})
+      {
+        vsched::Explorer ex;
+        ex.preempt_bound = 1;
+        ex.max_executions = bd.thread_exec;
+        std::set<uint64_t> digests; std::string failure;
+        const bool ok = ex.explore([&](const std::vector<int>& prefix) -> bool
+        {
+          std::vector<RankOut> outs; Verdict V;
+          execute(1, op, prefix, outs, V);
+          if(!V.ok()) { failure = V.what; return false; }
+          digests.insert(digest(outs));
+          return true;
+        });
+        c.count("rank_interleavings_checked", ex.stats.executions);
+        c.count("executions", ex.stats.executions);
+        c.count("traces_validated_against_impl", ex.stats.executions);
+        if(!ok) c.fail(std::string("rank interleaving: ") + op_name(op) + " " + cls, failure, "1:" + std::to_string(op) + ":" + vsched::schedule_to_string(ex.failing));
+        else if(digests.size() != 1) c.fail(std::string("rank interleaving changes the result: ") + op_name(op) + " " + cls, std::to_string(digests.size()) + " digests", "");
+      }
     }
     int maxnb = 0, empties = 0; for(auto& R : w.ranks) { maxnb = std::max(maxnb, int(R->nb.size())); empties += R->empty_mirrors; }
     c.maxi("neighbours_per_rank", uint64_t(maxnb));
@@ -450,6 +476,8 @@ namespace c13
 #if C13_FAMILY == 2
             if(!T) bd.pcg_dev = 1;
 #endif
+            bd.thread_check = (c.index() % 16) == 5;
+            bd.thread_exec = T ? 20000 : 1500;
             const double t0 = c.now();
             run_case<FamilyMesh>(c, cf, bd);
             if(c.now() - t0 > 5.0) fprintf(stderr, "SLOW %.1fs %s\n", c.now() - t0, cf.str().c_str());
